@@ -3,7 +3,7 @@
    psi-relaxed end cells - read at the corner when there is no end relaxation, else found by the two scans with their
    `break` - and the sqrt pass turns every cell into its square root.  No -1 marks here (psi_neg = false). *)
 From Coq Require Import ZArith Bool Lia List.
-From DV Require Import Prelude Cost Grid Dtw DtwProps CWps CFill CExpand CFillSim CLang CDistCanon CDistProofs CWpsCanon CWpsKernel.
+From DV Require Import Prelude Cost Grid Dtw DtwProps CWps CFill CExpand CFillSim CLang CDistCanon CDistProofs CWpsCanon CWpsCanonEu CWpsKernel.
 From DVGen Require Import Gen_cwps Gen_cfill Gen_cwpsk.
 Import ListNotations.
 Open Scope Z_scope.
@@ -99,6 +99,14 @@ Proof.
   destruct HP as (Hok & Hlen & Hin & _). cbn [fst snd] in *. subst ok. exists w. split; [reflexivity|]. split; [exact Hlen|].
   intros i Hi. apply Hin. lia.
 Qed.
+
+(* the scans of the Euclidean twin are the same text *)
+Lemma eu_loop26_tie a b c e f g h st x :
+  c_dtw_warping_paths_ndim_euclidean_loop26 a b c e f g h st x = c_dtw_warping_paths_ndim_loop26 a b c e f g h st x.
+Proof. reflexivity. Qed.
+Lemma eu_loop27_tie a b c e f g h st x :
+  c_dtw_warping_paths_ndim_euclidean_loop27 a b c e f g h st x = c_dtw_warping_paths_ndim_loop27 a b c e f g h st x.
+Proof. reflexivity. Qed.
 
 Section Value.
 Variables l1 l2 window0 : Z.
@@ -269,6 +277,44 @@ Proof.
     destruct corner_read as [Hv Hi].
     replace (l1 * W + l2 - shiftz (l1 - 1)) with (l1 * W + l2 - shiftz (l1 - 1)) by reflexivity.
     rewrite Hi, Hv. cbn [andb].
+    replace (end_value p1e p2e) with (M l1n l2n).
+    + apply Hfin.
+    + rewrite end_value_split. replace p1e with 0%nat by lia. replace p2e with 0%nat by lia. cbn [Nat.min seq map cmin_list].
+      rewrite !Nat.sub_0_r, !cmin_inf_r. unfold cmin. destruct (cleb (M l1n l2n) (M l1n l2n)); reflexivity.
+  - destruct (col_scan p2e l2) as (rel & b & E). rewrite E.
+    rewrite cltb_inf_l.
+    replace (end_value p1e p2e) with (cmin_list (map (fun k => M l1n (l2n - k)) (seq 0 (S (Nat.min p2e (l2n - 1)))))).
+    + apply Hfin.
+    + rewrite end_value_split. replace p1e with 0%nat by lia. cbn [Nat.min]. cbn [seq map cmin_list].
+      rewrite !Nat.sub_0_r, !cmin_inf_r. symmetry. apply cmin_idem_l.
+  - destruct (row_scan p1e l1) as (rel & b & E). rewrite E.
+    replace (end_value p1e p2e) with (cmin_list (map (fun k => M (l1n - k) l2n) (seq 0 (S (Nat.min p1e (l1n - 1)))))).
+    + set (a := cmin_list (map (fun k => M (l1n - k) l2n) (seq 0 (S (Nat.min p1e (l1n - 1)))))).
+      destruct (cltb a Inf) eqn:Ec; [apply Hfin|].
+      assert (Ea : a = Inf) by (destruct a; [discriminate Ec|reflexivity]). rewrite Ea. apply Hfin.
+    + rewrite end_value_split. replace p2e with 0%nat by lia. cbn [Nat.min]. cbn [seq map cmin_list].
+      rewrite !Nat.sub_0_r, !cmin_inf_r. symmetry. rewrite cmin_comm. apply cmin_idem_l.
+  - destruct (row_scan p1e l1) as (rel & b & E). rewrite E.
+    destruct (col_scan p2e l2) as (rel' & b' & E'). rewrite E'.
+    rewrite end_value_split.
+    set (a := cmin_list (map (fun k => M (l1n - k) l2n) (seq 0 (S (Nat.min p1e (l1n - 1)))))).
+    set (c := cmin_list (map (fun k => M l1n (l2n - k)) (seq 0 (S (Nat.min p2e (l2n - 1)))))).
+    replace (cmin a c) with (if cltb a c then a else c) by (rewrite cmin_if; apply cmin_comm).
+    destruct (cltb a c); apply Hfin.
+Qed.
+(* the Euclidean twin: same scans, no sqrt pass *)
+Theorem tail_value_eu (p1e p2e : nat) :
+  k_wtail_eu shiftz true false l1 l2 W wl Inf (Z.of_nat p1e) (Z.of_nat p2e) true wps
+  = (RPlain (end_value p1e p2e), wps, true).
+Proof.
+  assert (Hfin : forall v : cost,
+     (let rvalue := (if cltb Inf v then Inf else v) in (RPlain rvalue, wps, true)) = (RPlain v, wps, true)).
+  { intros v. rewrite cltb_inf_l. reflexivity. }
+  unfold k_wtail_eu. cbv zeta. cbn [andb].
+  change c_dtw_warping_paths_ndim_euclidean_loop26 with c_dtw_warping_paths_ndim_loop26.
+  change c_dtw_warping_paths_ndim_euclidean_loop27 with c_dtw_warping_paths_ndim_loop27.
+  destruct (Z.eqb_spec (Z.of_nat p1e) 0) as [E1|E1]; destruct (Z.eqb_spec (Z.of_nat p2e) 0) as [E2|E2]; cbn [andb negb].
+  - destruct corner_read as [Hv Hi]. rewrite Hi, Hv. cbn [andb].
     replace (end_value p1e p2e) with (M l1n l2n).
     + apply Hfin.
     + rewrite end_value_split. replace p1e with 0%nat by lia. replace p2e with 0%nat by lia. cbn [Nat.min seq map cmin_list].
